@@ -362,11 +362,12 @@ class CallsMixin:
     def bi_abs(self, node, st):
         outs = []
         for (s, pos, kw) in self._args1(node, st, 1):
-            v = pos[0]
-            s2 = self.guard(s, Z.is_num(v), 'TypeError', 'abs of non-number')
+            v = self.narrow(s, pos[0], True) if not (self.spec or self.pure) else pos[0]
+            s2 = self.guard(s, z3.Or(Z.is_num(v), Z.is_special(v)), 'TypeError', 'abs of non-number')
             if s2 is not None:
-                outs.append((s2, z3.simplify(z3.If(Z.is_intlike(v), Z.mk_i(z3.If(Z.ival(v) < 0, -Z.ival(v), Z.ival(v))),
-                                                   Z.mk_r(z3.If(Z.num(v) < 0, -Z.num(v), Z.num(v)))))))
+                outs.append((s2, z3.simplify(z3.If(Z.is_nan(v), Z.NAN, z3.If(z3.Or(Z.is_pinf(v), Z.is_ninf(v)), Z.PINF,
+                                             z3.If(Z.is_intlike(v), Z.mk_i(z3.If(Z.ival(v) < 0, -Z.ival(v), Z.ival(v))),
+                                                   Z.mk_r(z3.If(Z.num(v) < 0, -Z.num(v), Z.num(v)))))))))
         return outs
 
     def bi_float(self, node, st):
